@@ -26,6 +26,8 @@ class Checker:
         self.bottomup = bool(shape['cfg'].get('bottomup')); self.pconsume = knobs.get('pConsume', 0); self.inj = set(shape.get('inj', []))
         self.inst = {}
         self.mirror_on = bool(knobs.get('mirror', 0)); self.verbose_log = bool(knobs.get('verboseLog', 0)); self.names = None
+        mcode = {'preUpdate': 7, 'update': 8, 'postUpdate': 9, 'preReact': 10, 'react': 11, 'postReact': 13, 'query': 12}
+        self.masked = set((mcode[m], int(k)) for k, v in shape.get('mask', {}).items() for m in v)
         self.idmask = 0xff if shape['cfg'].get('payload') == 'tiny' else None
         self.taskcap = knobs.get('taskcap', 0); self.plans_on = bool(knobs.get('plans', 0))
         self.auth_notes = set(); self.auth_single_round = True; self.ylist = []; self.vflag = None; self.bytes = None
@@ -454,6 +456,10 @@ class Checker:
             if t == 'M':
                 if pend is not None and named(pend[1]): self.v('C16', 'method|record-without-the-callback|' + METH.get(pend[0], '?'), op, pend)
                 pend = (a[0], a[1]); self.stats['C16.method-records'] += 1
+                if pend in self.masked:
+                    # the property demands a record for every user-defined callback, not silence about inherited ones
+                    # (the library's static_cast to Head::* makes inherited react/query handlers look overridden): counted, not judged
+                    self.stats['C16.records-for-methods-not-overridden(not judged)'] += 1; pend = None
                 if not (0 <= a[1] < self.n): self.v('C16', 'method|record-with-invalid-state-id', op, a)
             elif t in ('c', 'a', 'j'):
                 key = (a[0], a[1]); self.stats['C16.callbacks-mirrored'] += 1
@@ -593,7 +599,7 @@ class Checker:
     def order(self, op, kind, m, cbs, before, prev_op):
         nodes = self.nodes; act = before[0]; sub = prev_op.sub
         ans = m.ans
-        def consume(state, meth): return self.pconsume and (ans.h(state, 40 + meth) % 1000) < self.pconsume
+        def consume(state, meth): return self.pconsume and (meth, state) not in self.masked and (ans.h(state, 40 + meth) % 1000) < self.pconsume
         def kids(n):
             if nodes[n]['kind'] == 'C': return [nodes[n]['children'][ord(sub[n]) - 48]] if sub[n] not in '-.' else []
             return nodes[n]['children']
@@ -633,6 +639,7 @@ class Checker:
                 consumed[0] = False; walk(0, meth, hf)
         else:
             fam = (12,); consumed[0] = False; walk(0, 12, not bu)
+        if self.masked: exp = [x for x in exp if x not in self.masked]
         obs = [(me, s) for me, s in cbs if me in fam]
         self.stats['C05.deliveries'] += len(obs)
         if expk: self.stats['C05.ops-with-consume'] += 1; self.nontrivial['C05'].add((act, sub, kind, tuple(expk)))
